@@ -364,6 +364,9 @@ func famFault(tr *Trace, scratch string, seed int64, tier string, workers int, r
 				return strings.Replace(y, "platform: \"linux\"", "platform: \"darwin\"", 1)
 			}},
 			{"arch_name", func(c *Cfg, y string) string { return strings.Replace(y, "name: \"invpkg\"", "name: \"inv pkg!\"", 1) }},
+			{"arch_name_hyphen", func(c *Cfg, y string) string { return strings.Replace(y, "name: \"invpkg\"", "name: \"-invpkg\"", 1) }},
+			{"arch_name_dot", func(c *Cfg, y string) string { return strings.Replace(y, "name: \"invpkg\"", "name: \".inv.pkg\"", 1) }},
+			{"arch_name_dashes", func(c *Cfg, y string) string { return strings.Replace(y, "name: \"invpkg\"", "name: \"--\"", 1) }},
 			{"missing_name", func(c *Cfg, y string) string { return strings.Replace(y, "name: \"invpkg\"\n", "", 1) }},
 			{"wrong_passphrase", func(c *Cfg, y string) string { return y }},
 		}
